@@ -95,6 +95,18 @@ PLAN = {
         "assumptions": ASSUME_X + ["https hops reached directly use the in-memory transport with TLS elided; a hop that must be tunnelled ends at the ClientHello (in-memory peer does not speak TLS)"],
         "replay_runner": "loop", "replay_trace": "Trace_SendLoop",
     },
+    "C11": {
+        "mc": [],
+        "families": [{"gen": ("tlc", {"name": "proxy-builder", "tla": "MC_Proxy.tla", "cfg": "MC_Proxy_builder.cfg", "workers": 8}),
+                      "runner": "proxy", "trace": "Trace_Proxy"},
+                     {"gen": ("tlc", {"name": "proxy-env", "tla": "MC_Proxy.tla", "cfg": "MC_Proxy_env.cfg", "cfg_thorough": "MC_Proxy_env_thorough.cfg", "workers": 8}),
+                      "runner": "proxy", "trace": "Trace_Proxy", "threads": 1},
+                     {"gen": ("tlc", {"name": "hop-chains", "tla": "MC_Hops.tla", "cfg": "MC_Hops.cfg", "workers": 8}),
+                      "runner": "loop", "trace": "Trace_SendLoop"}],
+        "rule": "hosts = label sequences of length 1..3 over {a, b, ab} plus IPv4/IPv6 literals x no-proxy lists of 0..2 entries (incl. the empty entry, upper case) x configured proxies, enumerated by TLC and judged through ProxySettings::for_url for both schemes and both letter cases of the host; all assignments of the eight environment variables over {unset, empty, garbage, url} (thorough: also blank, socks, https url) x NO_PROXY in {unset, empty, *, list with blanks/leading dot/upper case/empty entries}; the address dialled by send() is covered by the redirect-chain family",
+        "assumptions": ["environment rows run in a single-threaded process that sets the real environment variables"],
+        "replay_runner": "proxy", "replay_trace": "Trace_Proxy",
+    },
     "C12": {
         "mc": [],
         "families": [{"gen": ("tlc", {"name": "tunnel", "tla": "MC_Tunnel.tla", "cfg": "MC_Tunnel.cfg", "workers": 8}),
